@@ -150,8 +150,15 @@ package rr
 //@   derived alzfsc = lwrSupplFreeWater * (1 + side)
 //@   derived alzfpc = lwrPrimaryFreeWater * (1 + side)
 //@   requires rainfall.len == pet.len && rainfall.len == actualET.len && rainfall.len == runoff.len && rainfall.len == imperviousRunoff.len && rainfall.len == surfaceRunoff.len && rainfall.len == baseflow.len
-//@   requires side >= 0 && uh1 + uh2 + uh3 + uh4 + uh5 > 0
+//@   requires side >= 0 && uh1 + uh2 + uh3 + uh4 + uh5 > 0 && uztwm > 0 && uzfwm > 0
+//@   requires 0 <= pfree && pfree <= 1 && zperc >= 0 && lzfsm > 0 && lzfpm > 0 && lztwm > 0 && 0 <= lzsk && lzsk <= 1 && 0 <= lzpk && lzpk <= 1
 //@   assigns actualET.cells, runoff.cells, imperviousRunoff.cells, surfaceRunoff.cells, baseflow.cells
+//@   assert at "a = uprTensionWater / uztwm" [C10.sac-upper-zone-et] uprTensionWater + uprFreeWater + e1 + e2 == pre(uprTensionWater) + pre(uprFreeWater)
+//@   assert at "e3 = math.Min((evapt-e1-e2)*lwrTensionWater" [C10.sac-upper-zone-redistribution] uprTensionWater + uprFreeWater + e1 + e2 == pre(uprTensionWater) + pre(uprFreeWater)
+//@   assert at "e1 = e1 * (1 - adimp - pctim)" [C10.sac-lower-zone-et] lwrTensionWater + e3 == pre(lwrTensionWater) && additionalImperviousStore + e5 == pre(additionalImperviousStore)
+//@   assert at "if pav <= pdn20 {" [C10.sac-rain-fills-upper-zone] (pre(uprTensionWater) + pre(uprFreeWater) + pliq - (uprTensionWater + uprFreeWater + pav)) * (1 - adimp - pctim) == e1 + e2
+//@   assert at "roimp := pliq * pctim" [C10.sac-resupply-conserves] (pre(lwrTensionWater) + pre(alzfsc) + pre(alzfpc) - (lwrTensionWater + alzfsc + alzfpc)) * (1 - adimp - pctim) == e3
+//@   loop 2 step [C10.sac-increment-conserves] implies(0 <= pre(alzfpc) && pre(alzfpc) <= alzfpm && 0 <= pre(alzfsc) && pre(alzfsc) <= alzfsm && pre(lwrTensionWater) <= lztwm && pre(uprFreeWater) >= 0 && pinc >= 0 && 0 <= dlzp && dlzp <= 1 && 0 <= dlzs && dlzs <= 1 && 0 <= duz && duz <= 1 && dinc >= 0, post(uprFreeWater) + post(lwrTensionWater) + post(alzfsc) + post(alzfpc) + post(flobf) + post(floin) + post(flosf) == pre(uprFreeWater) + pre(lwrTensionWater) + pre(alzfsc) + pre(alzfpc) + pre(flobf) + pre(floin) + pre(flosf) + pinc)
 //@   loop 0 invariant 0 <= timestep && timestep <= nDays
 //@   loop 0 step [C10.sac-components-add-up] surfaceRunoff.at(timestep) + baseflow.at(timestep) == runoff.at(timestep)
 //@   loop 0 step [C10.sac-runoff-nonneg] runoff.at(timestep) >= 0 && baseflow.at(timestep) >= 0
